@@ -884,8 +884,9 @@ class Prog:
                     todo.extend(n.body)
                 continue
             yield n
-            if isinstance(n, (ast.FunctionDef, ast.AsyncFunctionDef, ast.ClassDef, ast.Lambda)):
+            if isinstance(n, (ast.FunctionDef, ast.AsyncFunctionDef, ast.ClassDef)):
                 continue
+            # (a lambda is an expression of this function: what it compares, subscripts or calls is decided here - only `def`s are units of their own)
             todo.extend(ast.iter_child_nodes(n))
 
     def param_type(self, fn: Fn, name: str) -> Optional[T]:
